@@ -30,11 +30,13 @@ pub struct Case {
     /// metamorphic cases: the source the implementation runs instead of the printed program (the model
     /// runs `prog`); the law that makes both observationally equal is stated by the family
     pub impl_src: Option<String>,
+    /// the line of the source on which the program's (and every module's) first statement sits
+    pub first_line: usize,
 }
 
 impl Case {
     pub fn new(family: &'static str, prog: Vec<Stmt>) -> Case {
-        Case { family, prog, modules: BTreeMap::new(), opts: CmpOpts { trace: false, kind: false }, also_full_parens: false, note: String::new(), prelude: Vec::new(), impl_src: None }
+        Case { family, prog, modules: BTreeMap::new(), opts: CmpOpts { trace: false, kind: false }, also_full_parens: false, note: String::new(), prelude: Vec::new(), impl_src: None, first_line: 1 }
     }
 }
 
@@ -107,7 +109,7 @@ pub fn module_sources(case: &Case) -> BTreeMap<String, String> {
         let text = if v.compile_error {
             "var = ;\n".to_string()
         } else {
-            print_program(v.program.as_deref().unwrap_or(&[]), false)
+            print_program_from(v.program.as_deref().unwrap_or(&[]), false, case.first_line)
         };
         m.insert(k.clone(), text);
     }
@@ -233,7 +235,7 @@ fn judge_batch(runner: &mut Runner, hooks: &Hooks, batch: Vec<Case>, check_deter
         let modules_text = module_sources(case);
         for &full in variants {
             let prog = Arc::new(case.prog.clone());
-            let mut src = print_program(&prog, full);
+            let mut src = print_program_from(&prog, full, case.first_line);
             src.push_str(&case.note);
             if let Some(other) = &case.impl_src {
                 src = other.clone();
